@@ -38,7 +38,7 @@ def crash_part(ctx):
         if key.startswith("recovery:") and "finalized" not in what:
             return
         ctx.violation("finalized-raise-not-atomic:" + key.split(":")[0], what, replay)
-    traces, maxs, maxp = (120, 40, 30) if ctx.tier == "quick" else (1200, 400, 60)
+    traces, maxs, maxp = (200, 150, 40) if ctx.tier == "quick" else (1500, 800, 60)
     res, lines, _ = c13.crash_part(ctx, "fin13", traces, maxs, maxp, mode="fin", report=report)
     import json
     n = sum(1 for l in lines if "finalized" in json.loads(l)["effects"])
